@@ -16,6 +16,13 @@ def run(tier):
     configs = cvtcases.configs(exe)
     n = int(os.environ.get("VERIF_C01_N", "0")) or (9000 if tier == "thorough" else 1100)
     cases = cvtcases.sample(gen, configs, n, seed(), stratify=True)
+    # cone recognition only happens when the solver takes cones: every cone-shaped model also under "native"
+    # (thorough: under every configuration)
+    for g in gen:
+        if g["kind"] == "cone":
+            for name, opts in configs[0]:
+                if name == "native" or tier == "thorough":
+                    cases.append({"id": len(cases), "gen": g, "cfgname": name, "opts": list(opts)})
     recs, stats = cvtcases.run_and_record(exe, PID, cases)
     res = validate_parallel("TraceReform", "TraceReform.cfg", recs, os.path.join(SPECS, "flat"), "c01")
     verdicts = [v for r in res for v in printed_json(r, "VERDICT")]
